@@ -40,7 +40,7 @@ def bfs(model, depth, acc, max_states=None, on_violation=None, merge_every=1):
     seen = {}  # key -> {op: outcome} recorded at first expansion (None until expanded)
     dup_checked = set()
     frontier = deque()
-    stats = {"states": 0, "transitions": 0, "max_depth": 0, "capped": False, "merge_checks": 0}
+    stats = {"states": 0, "transitions": 0, "max_depth": 0, "capped": False, "merge_checks": 0, "merge_mismatches": []}
     for h in model.initial():
         obj = model.build(h)
         k = model.canon(obj, h)
@@ -67,10 +67,11 @@ def bfs(model, depth, acc, max_states=None, on_violation=None, merge_every=1):
             if dup:
                 stats["merge_checks"] += 1
                 if seen[key].get(op, out) != out:
-                    raise HarnessError(
-                        f"state abstraction unsound: op {op!r} gives {out!r} after {hist!r} but "
-                        f"{seen[key][op]!r} in the state first reached otherwise"
-                    )
+                    # two histories with the same canonical state disagree: either the abstraction is
+                    # unsound, or the library itself is history dependent (then the model's own oracle
+                    # has reported one of the two outcomes); the caller decides which
+                    stats["merge_mismatches"].append(
+                        f"op {op!r} gives {out!r} after {hist!r} but {seen[key][op]!r} in the state first reached otherwise")
                 continue
             outs[op] = out
             h2 = hist + (op,)
@@ -92,6 +93,9 @@ def bfs(model, depth, acc, max_states=None, on_violation=None, merge_every=1):
         acc.count("evaluations", stats["transitions"])
         if stats["capped"]:
             acc.count("capped_programs")
+        if stats["merge_mismatches"]:
+            acc.count("merge_mismatches", len(stats["merge_mismatches"]))
+            acc.extra.setdefault("merge_mismatch_examples", []).append(stats["merge_mismatches"][0][:400])
     return stats
 
 
@@ -118,7 +122,13 @@ def snapshot_ovld(ov):
              sig.priority, sig.tiebreak, handler_key(fn)[1:])
             for sig, fn in ov._defns.items()
         )
-        flags = (bool(ov._compiled), bool(ov._locked))
+        d = getattr(ov, "dispatch", None)
+        entry = None
+        if d is not None:
+            co = d.__code__
+            entry = (co.co_argcount, co.co_posonlyargcount, co.co_kwonlyargcount, co.co_varnames[: co.co_argcount + co.co_kwonlyargcount],
+                     repr(d.__defaults__), repr(sorted((d.__kwdefaults__ or {}).items())))
+        flags = (bool(ov._compiled), bool(ov._locked), entry)
         if not ov._compiled:
             return ("unbuilt", defns, flags)
         m = ov.map
